@@ -9,6 +9,7 @@ import (
 
 	"github.com/hashicorp/hcl-lang/lang"
 	"github.com/hashicorp/hcl-lang/schema"
+	"github.com/hashicorp/hcl/v2"
 	"github.com/zclconf/go-cty/cty"
 	"github.com/zclconf/go-cty/cty/function"
 )
@@ -21,6 +22,10 @@ type World struct {
 	Docs map[string]string
 	// Hostile worlds are valid for the schema package but unusual.
 	Hostile bool
+	// Peers: further paths of the same workspace (path key -> world); the world itself is path "p1"
+	Peers map[string]*World
+	// Unreadable: peer path keys whose PathContext cannot be read
+	Unreadable []string
 }
 
 func md(s string) lang.MarkupContent { return lang.Markdown(s) }
@@ -1029,9 +1034,88 @@ resource "t" "n" {
 	return &World{Name: "hostile", Schema: s, Funcs: stdFuncs(), Docs: map[string]string{"h.tf": doc}, Hostile: true}
 }
 
+// A workspace of several paths linked by path origins (module inputs), a direct origin and implied origins; one path
+// shares its directory with another and differs only in the language id.
+var sentinelRange = hcl.Range{Filename: "sentinel.tf", Start: hcl.Pos{Line: 7, Column: 7, Byte: 77}, End: hcl.Pos{Line: 7, Column: 9, Byte: 79}}
+
+func modsSchemaRoot() *schema.BodySchema {
+	modPath := lang.Path{Path: "p2", LanguageID: "tf"}
+	input := func() *schema.AttributeSchema {
+		return &schema.AttributeSchema{IsOptional: true, Constraint: schema.AnyExpression{OfType: cty.DynamicPseudoType},
+			OriginForTarget: &schema.PathTarget{Address: schema.Address{schema.StaticStep{Name: "var"}, schema.AttrNameStep{}}, Path: modPath,
+				Constraints: schema.Constraints{ScopeId: "variable"}}}
+	}
+	return &schema.BodySchema{
+		Blocks: map[string]*schema.BlockSchema{
+			"variable": varBlock(),
+			"output":   outBlock(),
+			"module": {
+				Labels: []*schema.LabelSchema{{Name: "name"}},
+				Address: &schema.BlockAddrSchema{Steps: schema.Address{schema.StaticStep{Name: "module"}, schema.LabelStep{Index: 0}}, ScopeId: "module",
+					AsReference: true, DependentBodyAsData: true, InferDependentBody: true},
+				Body: &schema.BodySchema{Attributes: map[string]*schema.AttributeSchema{
+					"source": {IsRequired: true, IsDepKey: true, Constraint: schema.LiteralType{Type: cty.String}}}},
+				DependentBody: map[schema.SchemaKey]*schema.BodySchema{
+					attrDepStr("source", "./mod"): {
+						Targets: &schema.Target{Path: modPath, Range: sentinelRange},
+						Attributes: map[string]*schema.AttributeSchema{"name": input(), "size": input()},
+						ImpliedOrigins: schema.ImpliedOrigins{{OriginAddress: lang.Address{lang.RootStep{Name: "module"}, lang.AttrStep{Name: "m"}, lang.AttrStep{Name: "x"}},
+							TargetAddress: lang.Address{lang.RootStep{Name: "output"}, lang.AttrStep{Name: "x"}}, Path: modPath, Constraints: schema.Constraints{ScopeId: "output"}}},
+						TargetableAs: schema.Targetables{{Address: lang.Address{lang.RootStep{Name: "module"}, lang.AttrStep{Name: "m"}, lang.AttrStep{Name: "x"}}, ScopeId: "module", AsType: cty.String}},
+					},
+				},
+			},
+		},
+	}
+}
+
+func varBlock() *schema.BlockSchema {
+	return &schema.BlockSchema{
+		Labels: []*schema.LabelSchema{{Name: "name"}},
+		Address: &schema.BlockAddrSchema{Steps: schema.Address{schema.StaticStep{Name: "var"}, schema.LabelStep{Index: 0}}, ScopeId: "variable",
+			AsReference: true, AsTypeOf: &schema.BlockAsTypeOf{AttributeExpr: "type"}},
+		Body: &schema.BodySchema{Attributes: map[string]*schema.AttributeSchema{
+			"type":    {IsOptional: true, Constraint: schema.TypeDeclaration{}},
+			"default": {IsOptional: true, Constraint: schema.AnyExpression{OfType: cty.DynamicPseudoType}}}},
+	}
+}
+
+func outBlock() *schema.BlockSchema {
+	return &schema.BlockSchema{
+		Labels:  []*schema.LabelSchema{{Name: "name"}},
+		Address: &schema.BlockAddrSchema{Steps: schema.Address{schema.StaticStep{Name: "output"}, schema.LabelStep{Index: 0}}, ScopeId: "output", AsReference: true},
+		Body: &schema.BodySchema{Attributes: map[string]*schema.AttributeSchema{
+			"value": {IsRequired: true, Constraint: schema.AnyExpression{OfType: cty.DynamicPseudoType}}}},
+	}
+}
+
+func modsWorld(unreadable bool) *World {
+	sub := &World{Name: "mods-p2", Schema: &schema.BodySchema{Blocks: map[string]*schema.BlockSchema{"variable": varBlock(), "output": outBlock()}}, Funcs: stdFuncs(),
+		Docs: map[string]string{"variables.tf": "variable \"name\" {\n  type = string\n}\nvariable \"size\" {\n  type = number\n}\n", "outputs.tf": "output \"x\" {\n  value = \"${var.name}-${var.size}\"\n}\n"}}
+	// same directory as p1, another language id: a "vars" file whose attribute names are origins into p1
+	varsSchema := &schema.BodySchema{AnyAttribute: &schema.AttributeSchema{IsOptional: true, Constraint: schema.AnyExpression{OfType: cty.DynamicPseudoType},
+		OriginForTarget: &schema.PathTarget{Address: schema.Address{schema.StaticStep{Name: "var"}, schema.AttrNameStep{}}, Path: lang.Path{Path: "p1", LanguageID: "tf"},
+			Constraints: schema.Constraints{ScopeId: "variable"}}}}
+	vars := &World{Name: "mods-vars", Schema: varsSchema, Funcs: stdFuncs(), Docs: map[string]string{"x.tfvars": "name = \"n\"\nregion = \"eu\"\n"}}
+	w := &World{Name: "mods", Schema: modsSchemaRoot(), Funcs: stdFuncs(),
+		Docs: map[string]string{"main.tf": "variable \"name\" {\n  type = string\n}\nvariable \"region\" {\n  default = \"eu\"\n}\nmodule \"m\" {\n  source = \"./mod\"\n  name   = var.name\n  size   = 3\n}\n" +
+			"module \"other\" {\n  source = \"./unknown\"\n  name   = 1\n}\noutput \"o\" {\n  value = [module.m.x, var.region, var.name]\n}\n"},
+		Peers: map[string]*World{"p2": sub, "p1#vars": vars}}
+	if unreadable {
+		w.Name = "modsbroken"
+		w.Unreadable = []string{"p2"}
+	}
+	return w
+}
+
 func allWorlds() []*World {
-	ws := []*World{kinds(), worldTF(), worldTFBad(), hostile()}
+	ws := []*World{kinds(), worldTF(), worldTFBad(), hostile(), modsWorld(false), modsWorld(true)}
 	for _, w := range ws {
+		for _, pw := range w.Peers {
+			if err := pw.Schema.Validate(); err != nil {
+				panic(fmt.Sprintf("world %s peer: schema invalid: %v", w.Name, err))
+			}
+		}
 		if err := w.Schema.Validate(); err != nil {
 			panic(fmt.Sprintf("world %s: schema invalid: %v", w.Name, err))
 		}
